@@ -120,7 +120,7 @@ def check_c10(idx: Index, tier: str, res: Result) -> None:
              "vm": dict(S1=False, S2=False, V1=True, V2=False), "mv": dict(S1=False, S2=False, V1=False, V2=True),
              "mm": dict(S1=False, S2=False, V1=False, V2=False)}
 
-    def case_paths(fi: FuncInfo, val: Dict[str, bool]):
+    def case_paths(fi: FuncInfo, val: Dict[str, bool], on_loop=None):
         """Paths of *fi* consistent with one shape case.  Case tests (dimX == -1, `len(dimX) == 1 or dimX[1] == 0`, boolean locals
         and and/or/not of these) are decided by the valuation; a test whose body raises is a *guard* (recorded, then assumed to
         pass); any other test forks.  Yields (guards, ('return', text) | ('raise',) | ('end',))."""
@@ -188,6 +188,8 @@ def check_c10(idx: Index, tier: str, res: Result) -> None:
                 return out[:64]
             if isinstance(s0, (ast.For, ast.While, ast.With, ast.Try)):
                 # bodies are walked for guards/returns; a loop may also run zero times
+                if on_loop is not None and isinstance(s0, (ast.For, ast.While)):
+                    on_loop(s0)
                 inner = run(list(s0.body), env, guards, depth + 1)
                 out = []
                 for gg, oc, e2 in inner:
@@ -262,6 +264,11 @@ def check_c10(idx: Index, tier: str, res: Result) -> None:
              ("Xk", "k"): ("mv", {"dim1[1]", "dim2[0]"}), ("Xk", "kX"): ("mm", {"dim1[1]", "dim2[0]"})}
     seen_cases: Set[str] = set()
     nloops = 0
+    loop_cases: Dict[str, Set[int]] = {}
+    for c_ in ("vv", "vm", "mv", "mm"):
+        hit: Set[int] = set()
+        case_paths(term, CASES[c_], on_loop=lambda l_, hit=hit: hit.add(id(l_)))
+        loop_cases[c_] = hit
     for lp in [n for n in walk_no_nested(term.node) if isinstance(n, ast.For)]:
         if not (isinstance(lp.iter, ast.Call) and call_name(lp.iter) == "range" and isinstance(lp.target, ast.Name)):
             continue
@@ -287,10 +294,10 @@ def check_c10(idx: Index, tier: str, res: Result) -> None:
             s1, o1, s2, o2 = "k", [], "k", []
         nloops += 1
         legal = LEGAL.get((s1, s2))
-        anc = _ancestors(term.node, lp)
-        v1 = any(_is_vec_test(a.test) == "dim1" and inb for a, inb in anc)
-        v2 = any(_is_vec_test(a.test) == "dim2" and inb for a, inb in anc)
-        where_case = "vv" if (v1 and v2) else "vm" if v1 else "mv" if v2 else "mm"
+        reach = sorted(c_ for c_ in ("vv", "vm", "mv", "mm") if id(lp) in loop_cases.get(c_, set()))
+        if len(reach) != 1:
+            raise AnalysisError("product loop at %s is reachable under the shape cases %s" % (term.loc(lp), reach))
+        where_case = reach[0]
         ok = legal is not None and legal[0] == where_case and bound in legal[1]
         res.check("SUMIDX", "%s loop: A%s * B%s over range(%s)" % (where_case, s1, s2, bound), ok, term.loc(lp), term.qual,
                   norm_stmt(lp)[:160],
